@@ -39,7 +39,10 @@ theorem C10_inbox_only_after_counter (E : Spec.Rfc4493.BlockFn) (sys : Sys) (s :
     all_goals rfl
   · simp only [stepUplink, h]
     repeat' split
-    all_goals (first | rfl | (rename_i db hu; unfold DB.advanceFCntUp at hu; split at hu <;> cases hu; rfl))
+    all_goals first
+      | rfl
+      | (rename_i db hu; unfold DB.advanceFCntUp at hu; split at hu <;> cases hu; rfl)
+      | (rename_i db hu _; unfold DB.advanceFCntUp at hu; split at hu <;> cases hu; rfl)
 
 /-- The join handler changes keys (step 4) only after its own nonce insert (step 3) succeeded:
     steps 0..3 leave every device's keys alone. -/
